@@ -57,9 +57,25 @@ def load(mutate=None):
     return L
 
 
+_CLOSURE_N = [0]
+
+
+def closure_leaf():
+    """a leaf made by a factory: every call returns a function with the SAME code object and no keyword arguments whose value depends
+    on a captured variable (gaussian_spot(x0), pulse(t0), ...).  Two such parameters compare equal under Parameter.__eq__ but evaluate
+    differently."""
+    _CLOSURE_N[0] += 1
+    nm = f"cl{_CLOSURE_N[0]}"
+
+    def g(x, y, z):
+        return V(nm, float(x[0]), float(y[0]), float(z[0]))
+    return g
+
+
 def leaves(L):
     P = L["Parameter"]
     return {
+        "closure_param": lambda: P(closure_leaf()),
         "param2d": lambda: P(f2, name="a2"),
         "param3d": lambda: P(f3, name="a3"),
         "td_param": lambda: P(ftd, time_dependent=True, name="atd"),
